@@ -277,6 +277,35 @@ def run(tier, seed, replay=None):
                     R.violation({'target': target, 'value': repr(val), 'rendered': t, 'what': 'non-string constant rendered with quotes/backslashes'})
             except Exception as e:
                 R.notes.setdefault('nonstring_errors', []).append(f'{target} {val!r}: {type(e).__name__}')
+    # ---------------- several constants through ONE renderer call: each literal must be the one its own value gives
+    # (values that compare equal in Python but are different SQL values: 1 / 1.0 / TRUE, 0 / 0.0 / -0.0 / FALSE, 2 / 2.0, '1')
+    from mindsdb_sql.parser.ast import Insert, Identifier as Ident_
+    mixed = [1, 1.0, True, 0, 0.0, False, 2, 2.0, '1', -0.0, 'it\'s', 10, 10.0]
+    for target in TARGETS:
+        if target == 'oracle':
+            continue                    # multirow / this INSERT form is not rendered for oracle
+        try:
+            single = {}
+            for v in mixed:
+                a = parse_sql('insert into t (a) values (7)', 'mindsdb')
+                a.values[0][0] = Constant(v)
+                single[(type(v).__name__, repr(v))] = render(a, target).split('VALUES (', 1)[1].rsplit(')', 1)[0]
+            for order in [list(mixed), list(reversed(mixed))] + [rng.sample(mixed, len(mixed)) for _ in range(3)]:
+                cols = ', '.join(f'c{i}' for i in range(len(order)))
+                a = parse_sql(f'insert into t ({cols}) values ({", ".join(["7"] * len(order))})', 'mindsdb')
+                a.values[0] = [Constant(v) for v in order]
+                txt = render(a, target)
+                got = txt.split('VALUES (', 1)[1].rsplit(')', 1)[0].split(', ')
+                want = [single[(type(v).__name__, repr(v))] for v in order]
+                nonstr += 1
+                if got != want:
+                    i = [k for k, (g, w) in enumerate(zip(got, want)) if g != w][0]
+                    R.violation({'target': target, 'values_in_order': [repr(v) for v in order], 'rendered': txt, 'position': i,
+                                 'rendered_literal': got[i], 'literal_of_that_value_alone': want[i],
+                                 'what': 'a constant is rendered differently when other constants are rendered by the same call'})
+                    break
+        except Exception as e:
+            R.notes.setdefault('nonstring_errors', []).append(f'{target} mixed constants: {type(e).__name__}: {str(e)[:80]}')
     R.cov['evaluations'] = evaluations + nonstr
     R.cov['distinct_nontrivial'] = len({(r[0], r[1], r[2]) for r in good if any(c in r[0] for c in "'\\")})
     R.cov['rule'] = ('values: all strings over {\' \\ % : ; - newline a} up to length 3 (4 in thorough) + random unicode; '
